@@ -6,7 +6,7 @@
 
    Operational layer : one parse = Init (a configuration and a document shape are chosen), then a
        deterministic run of the named actions
-         Decl, Ref(kind, sysId, base), SkipRef, Offer(sysId, base), ResolverAnswers(src | null),
+         Decl, Ref(kind, sysId, base), ExpandInternalPE, SkipRef, Offer(sysId, base), ResolverAnswers(src | null),
          Open(file | url), Blocked, EndEntity, UndeclaredRef, Finish
        over an explicit entity stack (the reader stack).  `log` is the observable: every offer to
        the application's resolver with (systemId as written, baseURI), the resolver's answer and
@@ -84,13 +84,18 @@ Item(k, n, f, p, ns) == [k |-> k, n |-> n, f |-> f, p |-> p, ns |-> ns]
 \*    "refge" (reference &n; in content)   "text"   "extsubset" (DOCTYPE external id)
 \*    "nsl" / "sl" (xsi:noNamespaceSchemaLocation / xsi:schemaLocation hint for namespace ns)
 \*    "include" / "import" (xs:include / xs:import namespace ns)
+\*    "ipe" (internal parameter entity n declared and referenced; its replacement text is the pseudo resource at p)
 Text == Item("text", "", "", <<>>, "")
 Res(p, k, ns, items) == [p |-> p, k |-> k, ns |-> ns, items |-> items,
                          rs |-> p[Len(p)] \in {"x.dtd", "r.xsd", "rn.xsd", "gx.xsd", "rd.xsd"}]   \* rs: supplied by the resolver of behaviour "part"
 
 World == {
     Res(<<"d", "x.dtd">>, "dtd", "", << Item("pe", "p1", "rel", <<"p", "p1.ent">>, ""),
-                                        Item("declge", "gx", "rel", <<"e", "gx.xml">>, "") >>),
+                                        Item("declge", "gx", "rel", <<"e", "gx.xml">>, ""),
+                                        Item("ipe", "di", "", <<"%di">>, "") >>),     \* <!ENTITY % di "<!ENTITY gi SYSTEM 'e/gi.xml'>"> %di;
+    \* replacement text of the INTERNAL parameter entity di declared and referenced in d/x.dtd (not a file)
+    Res(<<"%di">>, "ipe", "", << Item("declge", "gi", "rel", <<"e", "gi.xml">>, "") >>),
+    Res(<<"d", "e", "gi.xml">>, "ge", "", << Text >>),
     Res(<<"d", "p", "p1.ent">>, "dtd", "", << Item("declge", "gp", "rel", <<"..", "e", ".", "gp.xml">>, "") >>),
     Res(<<"d", "e", "gx.xml">>, "ge", "", << Text, Item("sl", "", "rel", <<"sch", "gx.xsd">>, "urn:gx") >>),
     Res(<<"d", "e", "gp.xml">>, "ge", "", << Text >>),
@@ -127,7 +132,7 @@ DocItems(xf, pi, g1, gd, hk, hf) ==
     \o << Text >>
     \o (IF g1 THEN << Item("refge", "g1", "", <<>>, "") >> ELSE << >>)
     \o (IF pi THEN << Item("refge", "g0", "", <<>>, "") >> ELSE << >>)
-    \o (IF gd THEN << Item("refge", "gx", "", <<>>, ""), Item("refge", "gp", "", <<>>, "") >> ELSE << >>)
+    \o (IF gd THEN << Item("refge", "gx", "", <<>>, ""), Item("refge", "gp", "", <<>>, ""), Item("refge", "gi", "", <<>>, "") >> ELSE << >>)
 Shapes == {DocItems(xf, pi, g1, gd, hk, hf) :
              xf \in {"none"} \cup SubsetForms, pi \in BOOLEAN, g1 \in BOOLEAN, gd \in BOOLEAN,
              hk \in HintKinds, hf \in HintForms}
@@ -160,6 +165,8 @@ TopItems == IF Top.k = "doc" THEN doc ELSE IF Top.k = "none" THEN << >> ELSE Res
 Cur == TopItems[Top.pc]
 Advance == stack' = [stack EXCEPT ![Len(stack)].pc = @ + 1]
 Running == verdict = "run" /\ ~pend.on /\ stack # << >>
+\* ReaderMgr::getLastExtEntityInfo: the topmost reader of an EXTERNAL entity (readers of internal entities have no system id)
+LastExt == LET ix == {i \in 1..Len(stack) : stack[i].k # "ipe"} IN stack[CHOOSE i \in ix : \A j \in ix : j <= i].u
 DtdAware == cfg.scn \in DtdScanners
 Declared(n) == \E d \in decls : d.n = n
 DeclOf(n) == CHOOSE d \in decls : d.n = n
@@ -183,7 +190,7 @@ GuardInSchema == TRUE                                                       \* i
 
 \* an entity declaration is recorded with the base URI of the external entity being read
 Decl == /\ Running /\ Top.pc <= Len(TopItems) /\ Cur.k = "declge"
-        /\ decls' = IF DtdAware /\ ~Declared(Cur.n) THEN decls \cup {[n |-> Cur.n, f |-> Cur.f, p |-> Cur.p, b |-> Top.u]} ELSE decls
+        /\ decls' = IF DtdAware /\ ~Declared(Cur.n) THEN decls \cup {[n |-> Cur.n, f |-> Cur.f, p |-> Cur.p, b |-> LastExt]} ELSE decls
         /\ Advance
         /\ UNCHANGED <<cfg, doc, loaded, log, pend, verdict>>
 
@@ -196,17 +203,23 @@ Req(kind, it, base) == [on |-> TRUE, kind |-> kind, n |-> it.n, f |-> it.f, p |-
 \* Ref(kind, sysId, base): a reference that the configuration lets the parser follow
 Ref == /\ Running /\ Top.pc <= Len(TopItems)
        /\ \/ /\ Cur.k = "extsubset" /\ GuardSubset
-             /\ pend' = Req("dtd", Cur, Top.u)
+             /\ pend' = Req("dtd", Cur, LastExt)
           \/ /\ Cur.k = "pe" /\ DtdAware                      \* declared and referenced in a subset that is being processed
-             /\ pend' = Req("pe", Cur, Top.u)
+             /\ pend' = Req("pe", Cur, LastExt)
           \/ /\ Cur.k = "refge" /\ DtdAware /\ Declared(Cur.n)
              /\ pend' = Req("ge", [DeclOf(Cur.n) EXCEPT !.n = Cur.n] @@ [ns |-> ""], DeclOf(Cur.n).b)
           \/ /\ Cur.k \in {"nsl", "sl"} /\ GuardHint(Cur.ns)
-             /\ pend' = Req("hint", Cur, Top.u)        \* base = last external entity on the reader stack
+             /\ pend' = Req("hint", Cur, LastExt)        \* base = last external entity on the reader stack
           \/ /\ Cur.k \in {"include", "import"} /\ GuardInSchema
-             /\ pend' = Req(Cur.k, Cur, Top.u)
+             /\ pend' = Req(Cur.k, Cur, LastExt)
        /\ Advance
        /\ UNCHANGED <<cfg, doc, decls, loaded, log, verdict>>
+
+\* %n; for an internal parameter entity: its replacement text becomes the current reader (no resource is touched)
+ExpandInternalPE ==
+    /\ Running /\ Top.pc <= Len(TopItems) /\ Cur.k = "ipe"
+    /\ stack' = Append([stack EXCEPT ![Len(stack)].pc = @ + 1], Frame(Uri("int", Cur.p), "ipe", ""))
+    /\ UNCHANGED <<cfg, doc, decls, loaded, log, pend, verdict>>
 
 \* a reference the configuration does not let the parser follow: nothing is offered, nothing is opened
 SkipRef == /\ Running /\ Top.pc <= Len(TopItems)
@@ -267,7 +280,7 @@ Finish == /\ Running /\ Top.pc > Len(TopItems) /\ Len(stack) = 1
           /\ verdict' = "ok"
           /\ UNCHANGED <<cfg, doc, stack, decls, loaded, log, pend>>
 
-Next == OpenDocument \/ Decl \/ SkipText \/ Ref \/ SkipRef \/ UndeclaredRef \/ Offer \/ ResolverAnswers \/ Open \/ Blocked
+Next == OpenDocument \/ Decl \/ SkipText \/ Ref \/ ExpandInternalPE \/ SkipRef \/ UndeclaredRef \/ Offer \/ ResolverAnswers \/ Open \/ Blocked
         \/ EndEntity \/ Finish
 Spec == Init /\ [][Next]_vars
 
@@ -288,7 +301,9 @@ RefsOf(p, ck, items) == {[kind |-> KindOfItem(IF items[i].k = "declge" THEN [ite
                       f |-> items[i].f, p |-> items[i].p, c |-> p, inxsd |-> (ck = "xsd"),
                       t |-> IF items[i].f = "rel" THEN Walk(Front(p), items[i].p) ELSE items[i].p]
                         : i \in {j \in 1..Len(items) : items[j].k \in RefKinds}}
-WorldRefs == UNION {RefsOf(r.p, r.k, r.items) : r \in World}          \* constant
+\* text of an internal parameter entity belongs to the entity in which that parameter entity is declared
+ContainerPath(r) == IF r.k = "ipe" THEN (CHOOSE q \in World : \E i \in 1..Len(q.items) : q.items[i].k = "ipe" /\ q.items[i].p = r.p).p ELSE r.p
+WorldRefs == UNION {RefsOf(ContainerPath(r), r.k, r.items) : r \in World}          \* constant
 AllRefs == RefsOf(DocPath, "doc", doc) \cup WorldRefs
 
 \* The log only grows by appending and every prefix of it is the log of an earlier state, so each invariant
@@ -313,5 +328,5 @@ BaseIsContainingEntity ==
 AnswersFollowOffers == LastIs("answer") => (N > 1 /\ log[N - 1].e = "offer")
 \* a parse ends; without a fatal error every permitted reference of the document itself was followed or offered
 TypeOK == /\ verdict \in {"start", "run", "ok", "fatal"}
-          /\ Len(stack) <= 6
+          /\ Len(stack) <= 7
 =============================================================================
